@@ -1,18 +1,13 @@
 CONSTANTS
   TBle = 30000
   TDisc = 20000
-  MaxSteps = 6
+  MaxSteps = 5
   OpKinds = {"read", "notify", "services", "connect", "connect_auto", "disconnect", "pair"}
   Msgs <- BleMsgs
   MaxChunk = 1
-  GenMode = FALSE
+  GenMode = TRUE
   UseSubs = FALSE
 SPECIFICATION MSpec
 VIEW mview
 CONSTRAINT Horizon
-INVARIANT NoCrossTalk
-INVARIANT NothingLeft
-INVARIANT OutcomeSound
-PROPERTY ForeignIgnored
-PROPERTY ConnectTimeoutOrder
 CHECK_DEADLOCK FALSE
